@@ -239,4 +239,21 @@ type) on a channel's blocks rendered for object `o` (`extra_data.object_start`,
 `extra_data.object_duration`). -/
 def accepted (o : Obj) (bs : List Block) : Verdict := acceptGo o none bs
 
+/-! ### Writing exact times with `k` decimals (the input class of the property; `harness/c15.py: rnd`) -/
+
+/-- Python `round(Fraction)` (`Fraction.__round__` with `ndigits=None`): nearest integer, exact
+halves to the even neighbour. -/
+def roundHalfEvenInt (y : Rat) : Int :=
+  let f := y.floor
+  let r := y - (f : Rat)
+  if r < 1 / 2 then f else if r > 1 / 2 then f + 1 else if f % 2 = 0 then f else f + 1
+
+/-- write `x` with `k` decimals using the integer rounding `rint` of `x·10^k` -/
+def decWith (rint : Rat → Int) (k : Nat) (x : Rat) : Rat :=
+  ((rint (x * (10 : Rat) ^ k) : Int) : Rat) * ((10 : Rat) ^ k)⁻¹
+
+def roundHalfEven (k : Nat) : Rat → Rat := decWith roundHalfEvenInt k
+def floorDec (k : Nat) : Rat → Rat := decWith Rat.floor k
+def ceilDec (k : Nat) : Rat → Rat := decWith Rat.ceil k
+
 end Earverif.TimingFix
